@@ -481,7 +481,7 @@ func (t *Task) mthTerm(method string, recv string) string {
 		t.pureDone[key] = true
 		fm := t.declareFun("$mthm", []string{"Int"}, "Int")
 		fr := t.declareFun("$mthr", []string{"Int"}, "Int")
-		t.lateFacts = append(t.lateFacts, sAnd(sEq(sApp(fm, term), sInt(int64(id))), sEq(sApp(fr, term), recv), sEq(sApp(t.fkind(), term), "3")))
+		t.lateFacts = append(t.lateFacts, sAnd(sEq(sApp(fm, term), sInt(int64(id))), sEq(sApp(fr, term), recv), sEq(sApp(t.fkind(), term), "3"), "(> "+term+" 0)"))
 	}
 	return term
 }
@@ -728,8 +728,9 @@ func (a *Activation) builtin(b *ssa.Builtin, c *ssa.CallCommon, args []Val, st *
 			return st, []Val{{K: KInt, S: r, T: types.Typ[types.Int]}}
 		case KRef: // channel / map
 			if _, ok := c.Args[0].Type().Underlying().(*types.Chan); ok {
-				t.regArray("$chanlen", "(Array Int Int)")
-				return st, []Val{{K: KInt, S: sApp("select", t.lookup(st, "$chanlen"), x.S), T: types.Typ[types.Int]}}
+				l := t.fresh("chanlen", "Int")
+				t.assume(st.pc, "(>= "+l+" 0)")
+				return st, []Val{{K: KInt, S: l, T: types.Typ[types.Int]}}
 			}
 		}
 	case "cap":
@@ -945,7 +946,7 @@ func (a *Activation) loopHead(li *loopInfo, b *ssa.BasicBlock, st *State) *State
 		}
 	}
 	// ghost control state that the loop body may change
-	for _, g := range []string{"$calls", "$tick", "$now", "$otick", "$held", "$chanlen", "$chanclosed", "$spawned"} {
+	for _, g := range []string{"$calls", "$tick", "$now", "$otick", "$held", "$tok", "$sends", "$timerfired", "$chanclosed", "$spawned"} {
 		if g == "$now" && !anyAlloc {
 			continue
 		}
